@@ -56,9 +56,13 @@ def lane(k, jobs, results, lock):
         if rc != 0:
             res["error"] = "patch does not apply"
         else:
-            for p in props_of(sid, meta):
-                if not p:
-                    continue
+            # the property the change was written for first; if its check stays silent, the checks recorded as
+            # having caught it before (the check that owns the affected behaviour)
+            own = [p for p in props_of(sid, meta) if p]
+            others = [p for p, v in meta.get("detected_by", {}).items() if p not in own and v.get("exit") == 1]
+            for p in own + others:
+                if p in others and any(v.get("exit") == 1 and v.get("violation_lines", 0) > 0 for v in res.values()):
+                    break
                 rc, o = sh("./check %s quick" % p, cwd=verif)
                 viol = [l for l in o.splitlines() if l.startswith("VIOLATION")]
                 first = [l.strip() for l in o.splitlines() if re.match(r"^\s+C\d+/", l)]
